@@ -859,6 +859,8 @@ class VWorld:
         from labtech.utils import logger as lt_logger
         saved_handlers = list(lt_logger.handlers)
         saved_level = lt_logger.level
+        root_logger = logging.getLogger()
+        saved_root = (list(root_logger.handlers), root_logger.level, lt_logger.propagate)
         saved_out, saved_err = sys.stdout, sys.stderr
         import multiprocessing as real_mp
         saved_name = real_mp.current_process().name
@@ -954,6 +956,8 @@ class VWorld:
             U.WORLD.child = None
             lt_logger.handlers = saved_handlers
             lt_logger.setLevel(saved_level)
+            root_logger.handlers, lt_logger.propagate = saved_root[0], saved_root[2]
+            root_logger.setLevel(saved_root[1])
             sys.stdout, sys.stderr = saved_out, saved_err
             real_mp.current_process().name = saved_name
             for t, d in saved_dicts:
